@@ -12,9 +12,11 @@ C semantics that matter are emulated, not assumed:
   * `double` parameters / typed locals are numpy.float64 (cdivision: x/0 gives
     inf/nan, no exception), `int` ones are Python ints;
   * `double[:]` arguments must be 1-d float64 ndarrays (else ValueError, as
-    Cython's buffer check) and are wrapped in StrictArray, whose integer
-    indexing raises ShimOutOfBounds outside 0..len-1 (boundscheck=False /
-    wraparound=False make that undefined behaviour in C);
+    Cython's buffer check) and - in files that carry the directives
+    boundscheck=False / wraparound=False - are wrapped in StrictArray, whose
+    integer indexing raises ShimOutOfBounds outside 0..len-1 (undefined behaviour
+    in C); a file without those directives (cython_get_tau.pyx) is compiled with
+    Cython's checked, wrapping indexing, which is what plain numpy indexing does;
   * np.empty returns NaN-filled memory, so that a read of an uninitialised
     element is visible;
   * slice assignment requires equal extents (Cython raises, numpy broadcasts).
@@ -62,6 +64,29 @@ class StrictArray(np.ndarray):
                 raise ValueError("Memoryview assignment: differing extents "
                                  "%r vs %r" % (tgt.shape, v.shape))
         np.ndarray.__setitem__(self, key, value)
+
+
+def _directives(text):
+    """#cython: boundscheck=False / wraparound=False header comments of a .pyx file
+    (Cython's defaults are True for both)"""
+    d = dict(boundscheck=True, wraparound=True)
+    for line in text.split("\n")[:40]:
+        m = re.match(r"^#\s*cython:\s*(\w+)\s*=\s*(\w+)", line.strip())
+        if m and m.group(1) in d:
+            d[m.group(1)] = m.group(2).lower() == "true"
+    return d
+
+
+def _mv_checked(a, name="?"):
+    """`double[:]` parameter in a module compiled WITH bounds checking and wraparound
+    (no directive in the file): indexing behaves as in Python (negative indices wrap,
+    out-of-range raises IndexError) - nothing undefined to emulate"""
+    v = _mv(a, name)
+    return np.asarray(v)
+
+
+def _strict_checked(a):
+    return np.asarray(_strict(a))
 
 
 def _mv(a, name="?"):
@@ -393,9 +418,13 @@ class Shim(object):
             self.sources[name] = src
             mod = types.ModuleType(PKG + name)
             mod.__file__ = path + " (shim)"
+            dirs = _directives(text)
+            unchecked = not dirs["boundscheck"] or not dirs["wraparound"]
             mod.__dict__.update(dict(
-                _mv=_mv, _strict=_strict, _f64=_f64, _cint=_cint,
-                fabs=fabs, fmax=fmax, fmin=fmin))
+                _mv=_mv if unchecked else _mv_checked,
+                _strict=_strict if unchecked else _strict_checked,
+                _f64=_f64, _cint=_cint, fabs=fabs, fmax=fmax, fmin=fmin))
+            mod.__shim_directives__ = dirs
             if name != "cython_get_tau":
                 mod.__dict__["get_tau"] = self.modules["cython_get_tau"].get_tau
             code = compile(src, "<shim:%s>" % name, "exec")
